@@ -146,19 +146,30 @@ class C01(Prop):
                     "downlink messages are decodable, the first DOWNLINK NAS TRANSPORT carries the chosen AMF-UE-NGAP-ID and an "
                     "Authentication Request from whose AUTN/RAND DeriveRESstarAndSetKey obtains the vector's RES* and keys "
                     "(C01_keys_of_network_challenge: proved from C01_res_star when the AUTN/RAND read are the network's); the PlainNasDecode/PlainNasEncode re-encoding inside "
-                    "EncodeNasPduWithSecurity is proved to reproduce the two constructor outputs (reenc_smc, reenc_rc: C08). NOT proved, so C01_accepted_statement (judge (emulate cfg (dl cfg "
-                    "choices)) = accept for a specified downlink function dl) stays open: (a) a specification dl of the AMF's "
-                    "downlink octets with these properties proved; (b) more than one UE. The executable reference AMF judges "
+                    "EncodeNasPduWithSecurity is proved to reproduce the two constructor outputs (reenc_smc, reenc_rc: C08). C01_accepted (one UE) and C01_accepted_n (N <= 10 000 UEs, the "
+                    "registration loop): the DOWNLINK side is no longer a hypothesis - Spec/AmfDownlink.lean specifies the "
+                    "conformant AMF's five downlink messages per UE (Spec.AmfDl.dl: NG SETUP RESPONSE, DOWNLINK NAS TRANSPORT "
+                    "[Authentication Request with the vector's RAND/AUTN], DOWNLINK NAS TRANSPORT[protected Security Mode Command], "
+                    "INITIAL CONTEXT SETUP REQUEST[protected Registration Accept], DOWNLINK NAS TRANSPORT[protected Configuration "
+                    "Update Command]) with the X.691 / TS 24.501 SPECIFICATION encoders (byte-identical to the recorded peer "
+                    "messages on the witness configuration), DlReads is proved for it (C01_dlReads_of_spec: NGAP round trips of "
+                    "the three downlink shapes in Proofs/EmulatorDownlink.lean, the emulator reads AUTN/RAND of the spec-encoded "
+                    "Authentication Request: ar_decodes), and judge (emulate cfg (d1 :: per-UE dl)).uls = accept follows. "
+                    "Remaining hypotheses of C01_accepted / C01_accepted_n: well-formed configuration and AMF choices (as before), "
+                    "that Spec.AmfDl.dl is defined (the three protected NAS messages exist: the primitives' outputs have the "
+                    "lengths the specification encoders need), every downlink message fits the emulator's 2048-octet read buffer, "
+                    "N <= 10 000 (C16's distinct-id range), and nothing is requested after registration (the procedures after it "
+                    "are C02's: C02_script_accepted). The executable reference AMF judges "
                     "every real transcript of the correspondence run; C01_accepted_witness evaluates one conversation in the kernel. "
                     "Traffic mode (no -t) needs XDP and is neither modelled nor run.")
     level_text = ("Lean theorems for all configurations and AMF choices about an executable model of ManageNGSetup / RegisterUE / "
                   "test mode (per-clause composition of C05, C06, C11, C13, C16 against the reference AMF of Spec/Amf.lean); model "
                   "tied to the code by whole-conversation differential runs (real binary and in-process procedures); the "
                   "reference AMF judges every real transcript")
-    level_note = ("judge (emulate ...) = accept is a theorem for one registration, all configurations and AMF choices, with the "
-                  "downlink side (what the emulator reads) as explicit hypotheses; a specification of the AMF's downlink octets "
-                  "and N > 1 UEs are open; end-to-end acceptance is also evaluated per real transcript; hand model tied "
-                  "differentially")
+    level_note = ("judge (emulate cfg (dl cfg choices)) = accept is a theorem for N <= 10 000 registrations, all configurations "
+                  "and AMF choices, dl = the specification-encoded downlink of a conformant AMF (C01_accepted_n; hypotheses: dl "
+                  "defined, messages within the 2048-octet read buffer); end-to-end acceptance is also evaluated per real "
+                  "transcript; hand model tied differentially")
     technique = "Lean 4 proof (per-clause) + whole-conversation correspondence + executable reference AMF as oracle"
 
     def key(self, op, impl, model, spec):
